@@ -60,8 +60,10 @@ def newSymbol (nm : Namer) (nameRoot : String) (reserved : List String) : String
   let name := if taken.contains root then firstFree root taken (n + 1) (taken.length + 1) else root
   (name, { nm with generated := name :: nm.generated })
 
-/-- A recorded request `new_symbol(root, reserved)` (reserved already flattened: a qualified name
-`a.b` contributes its components `a`, `b`, exactly as `Namer.new_symbol` flattens QNs). -/
+/-- A recorded request `new_symbol(root, reserved)`; `reserved` is the set of STRINGS in the flattened
+`all_reserved_locals`: a simple name `a` contributes `a`; a composite `a.b` contributes only the attribute name `b`
+(`QN.qn = (QN a, 'b')`: the base is a QN object, which never equals a string — `a` is reserved only because reading
+`a.b` also reads `a`); a subscript `a[i]` contributes nothing. -/
 structure Call where
   root : String
   reserved : List String
